@@ -208,8 +208,41 @@ Theorem C08_assembly_order : forall (A : Type) (res0 : list A) (arr1 arr2 : list
 Proof. exact (@assemble_order_independent). Qed.
 Print Assumptions C08_assembly_order.
 
+(* ---- RandomStateService.reseed(s) rewinds the stream to that of a fresh
+   RandomStateService(s), for every prior state and every prior seed -
+   including a service that already carries the seed s ---- *)
+Theorem C08_reseed : forall (rng val : Type) (seed_rng : Z -> rng)
+    (draw : rng -> req -> val * rng) (r : rss rng) (s : Z) (qs : list req),
+  let run := fix run (qs : list req) (x : rss rng) : list val :=
+               match qs with
+               | [] => []
+               | q :: rest => let '(v, x') := rss_draw rng val draw x q in v :: run rest x'
+               end in
+  run qs (rss_reseed rng seed_rng r s) = run qs (rss_new rng seed_rng s)
+  /\ rss_seed rng (rss_reseed rng seed_rng r s) = s.
+Proof. exact rss_reseed_stream. Qed.
+Print Assumptions C08_reseed.
+
+Theorem C08_reseed_state : forall (rng : Type) (seed_rng : Z -> rng) (r : rss rng) (s : Z),
+  rss_reseed rng seed_rng r s = {| rs_seed := s; rs_st := seed_rng s |}.
+Proof.
+  exact (fun rng seed_rng r s =>
+           eq_trans (rss_reseed_fresh rng seed_rng r s) (proj1 (rss_new_spec rng seed_rng s))).
+Qed.
+Print Assumptions C08_reseed_state.
+
 (* ------------------------------------------------------------------ *)
 (* non-vacuity *)
+(* a service seeded 5 that has answered three requests, re-seeded with the SAME seed 5 *)
+Example C08_reseed_example :
+  let tbl := [(5, [11; 12; 13; 14])] in
+  let r0 := rss_new tm_rng (tm_seed tbl) 5 in
+  let '(_, r3) := tm_script [RRandom 1; RPoisson 0; RUniform 2] r0 in
+  fst (rs_st r3) = [14]
+  /\ fst (rs_st (rss_reseed tm_rng (tm_seed tbl) r3 5)) = [11; 12; 13; 14]
+  /\ rs_seed (rss_reseed tm_rng (tm_seed tbl) r3 5) = 5.
+Proof. vm_compute. repeat split. Qed.
+
 Example C08_assembly_example :
   assemble (collect [10; 11] [(2, [30]); (1, [20; 21]); (3, [])]) = Ok [10; 11; 20; 21; 30]
   /\ assemble (collect [10; 11] [(1, [20; 21]); (3, []); (2, [30])]) = Ok [10; 11; 20; 21; 30]
